@@ -195,6 +195,7 @@ type addrRun struct {
 	Stdout string
 	Stderr string
 	Log    []gitLogRec
+	Events []map[string]interface{}
 	Before string
 	After  string
 }
@@ -225,6 +226,7 @@ func (e *c10Env) runAddr(l *addrLayout, m addrMode, base string, race *run.Build
 	ar.After = dirDigest(base)
 	ar.Exit, ar.Stdout, ar.Stderr = res.Exit, string(res.Stdout), string(res.Stderr)
 	ar.Log = readGitLog(logf)
+	ar.Events = protoEvents(ar.Log)
 	return ar
 }
 
@@ -293,6 +295,7 @@ func checkC13(c *Ctx) {
 		runs []addrRun
 	}
 	var recs []rec
+	var prs []protoRun
 	for r := 0; r < rounds; r++ {
 		for _, fl := range flavours {
 			ac := genAddrCase(rng, fmt.Sprintf("a%d-%s", r+1, fl), fl)
@@ -315,6 +318,11 @@ func checkC13(c *Ctx) {
 			recs = append(recs, rec{ac, runs})
 			for i, ar := range runs {
 				c.Distinct(ac.ID + "/" + ar.Mode)
+				if !addrModes[i].ViaGit {
+					want, _ := filepath.EvalSymlinks(addrModes[i].GitDir(l))
+					prs = append(prs, protoRun{ID: ac.ID + "/" + ar.Mode, Args: []string{"--json", "--no-progress"}, Events: ar.Events,
+						Exit: ar.Exit, Stdout: ar.Stdout, Want: want})
+				}
 				var why []string
 				if ac.Shallow {
 					if ar.Exit == 0 || ar.Stdout != "" {
@@ -352,6 +360,8 @@ func checkC13(c *Ctx) {
 			os.RemoveAll(base)
 		}
 	}
+	// every addressing mode must be a behaviour of the process-level protocol with the real GIT_DIR (shape layer)
+	reportProto(c, "addressing modes", prs)
 	verdicts := runJudge(c, s.jcs)
 	for id, v := range verdicts {
 		if v.Crashed || len(v.Wrong) > 0 || !v.Refs {
